@@ -233,5 +233,25 @@ def constness_probes():
     return out
 
 
+def loop_nest_probes():
+    """break / continue inside nested loops (every mix of for-range and while): the jump must go to the
+    innermost enclosing loop.  `lim` is read once, so the solver explores one class per loop position."""
+    out = []
+    outer = {"for": ("for i in range(3):\n", ""), "while": ("i = -1\nwhile i < 2:\n    i += 1\n", "")}
+    inner = {"for": "    for k in range(3):\n", "while": "    k = -1\n    while k < 2:\n        k += 1\n"}
+    for on, (ohead, _) in outer.items():
+        for inn, ihead in inner.items():
+            for kw in ("continue", "break"):
+                src = HDR + "lim = d0.Setting\ntotal = 0\n" + ohead + ihead + f"        if k == lim:\n            {kw}\n        total = total + 10 * i + k\n        db.Mode = total\n    db.On = total + i\ndb.Setting = total\n"
+                out.append((f"nest:{on}_{inn}:{kw}_inner", src))
+            src = HDR + "lim = d0.Setting\ntotal = 0\n" + ohead + "    if i == lim:\n        continue\n" + ihead + "        total = total + 10 * i + k\n    db.On = total\ndb.Setting = total\n"
+            out.append((f"nest:{on}_{inn}:continue_outer_before", src))
+            src = HDR + "lim = d0.Setting\ntotal = 0\n" + ohead + ihead + "        total = total + 10 * i + k\n    if i == lim:\n        continue\n    db.On = total\ndb.Setting = total\n"
+            out.append((f"nest:{on}_{inn}:continue_outer_after", src))
+    out.append(("nest:triple:continue_middle", HDR + "lim = d0.Setting\nt = 0\nfor a in range(2):\n    for b in range(3):\n        if b == lim:\n            continue\n        for c in range(2):\n            t = t + a * 100 + b * 10 + c\n        db.Mode = t\n    db.On = t\ndb.Setting = t\n"))
+    out.append(("nest:in_function", HDR + "def scan(lim):\n    t = 0\n    for a in range(3):\n        b = 0\n        while b < 3:\n            b += 1\n            if b == lim:\n                continue\n            t = t + a * 10 + b\n        db.Mode = t\n    return t\n\ndb.Setting = scan(d0.Setting)\ndb.On = scan(2)\n"))
+    return out
+
+
 def all_probes():
-    return comparison_probes() + range_probes() + boolean_probes() + arithmetic_probes() + call_probes() + access_probes() + call_matrix() + lifetime_probes() + constness_probes()
+    return comparison_probes() + range_probes() + boolean_probes() + arithmetic_probes() + call_probes() + access_probes() + call_matrix() + lifetime_probes() + constness_probes() + loop_nest_probes()
